@@ -261,8 +261,14 @@ def wakeS (P : Par) (s : S) (u : Nat) : S :=
   if (dv s u).waitingDS then passS P s u 0 else s
 
 /-- `_set_waiting_for_part(True)`. -/
-def waitS (s : S) (j : Nat) : S :=
+def waitS0 (s : S) (j : Nat) : S :=
   if (dv s j).since.isSome then s else setD s j { dv s j with since := some s.now }
+
+/-- The `_set_waiting_for_part(True)` of a notification: a device with one slot starts its idle
+clock only when both of its slots are free (repair of finding F13); a buffer always does. -/
+def waitS (s : S) (j : Nat) : S :=
+  if (dv s j).kind = .buffer ∨ ((dv s j).part.isNone && (dv s j).output.isNone) then waitS0 s j
+  else s
 
 def bufRoom (d : Dev) : Bool :=
   match d.cap with
@@ -275,10 +281,24 @@ def notifyS (P : Par) (s : S) (j : Nat) : S :=
   else if j = 0 then waitS s j else wakeS P (waitS s j) (j - 1)
 
 theorem W_setWaiting_true (P : Par) (s : S) (j : Nat) (hi : (dv s j).inited = true) :
-    (W P s).setWaiting j true false = W P (waitS s j) := by
-  unfold setWaiting waitS
+    (W P s).setWaiting j true false = W P (waitS0 s j) := by
+  unfold setWaiting waitS0
   simp only [W_dev, W_now, W_setDev, hi]
   cases h : (dv s j).since <;> simp
+
+theorem W_waitS_buf (P : Par) (s : S) (j : Nat) (hi : (dv s j).inited = true)
+    (hk : (dv s j).kind = .buffer) :
+    (W P s).setWaiting j true false = W P (waitS s j) := by
+  rw [W_setWaiting_true P s j hi]; unfold waitS; rw [if_pos (Or.inl hk)]
+
+theorem W_waitS_slot (P : Par) (s : S) (j : Nat) (hi : (dv s j).inited = true)
+    (hk : (dv s j).kind ≠ .buffer) :
+    (if (dv s j).part.isNone && (dv s j).output.isNone then (W P s).setWaiting j true false
+      else W P s) = W P (waitS s j) := by
+  unfold waitS
+  by_cases hf : ((dv s j).part.isNone && (dv s j).output.isNone) = true
+  · rw [if_pos hf, if_pos (Or.inr hf)]; exact W_setWaiting_true P s j hi
+  · rw [if_neg hf, if_neg (by simp [hk, hf])]
 
 theorem W_setWaiting_false (P : Par) (s : S) (j : Nat) :
     (W P s).setWaiting j false false = W P (setD s j { dv s j with since := none }) := by
@@ -309,20 +329,27 @@ theorem W_spaceAvail (P : Par) (s : S) (f u : Nat) (hS : Stat P.L s.ds) (hu : u 
     | exact absurd hk hns
 
 theorem waitS_stat {L : Line} {s : S} (hS : Stat L s.ds) (j : Nat) : Stat L (waitS s j).ds := by
-  unfold waitS
+  unfold waitS waitS0
   split
+  · split
+    · exact hS
+    · exact hS.setD rfl
   · exact hS
-  · exact hS.setD rfl
 
 @[simp] theorem waitS_now (s : S) (j : Nat) : (waitS s j).now = s.now := by
-  unfold waitS; split <;> rfl
+  unfold waitS waitS0
+  split
+  · split <;> rfl
+  · rfl
 
 theorem dv_waitS_up (s : S) (j : Nat) (h : j < s.ds.length) :
     (dv (waitS s j) j).up = (dv s j).up := by
-  unfold waitS
+  unfold waitS waitS0
   split
+  · split
+    · rfl
+    · rw [dv_setD_same _ _ _ h]
   · rfl
-  · rw [dv_setD_same _ _ _ h]
 
 theorem W_notify (P : Par) (s : S) (j : Nat) (hS : Stat P.L s.ds) (hj : j ≤ P.L.n)
     (h0 : 0 ≤ s.now) :
@@ -343,9 +370,30 @@ theorem W_notify (P : Par) (s : S) (j : Nat) (hS : Stat P.L s.ds) (hj : j ≤ P.
   rw [notifyUp.eq_2]
   unfold notifyS
   simp only [W_dev]
-  rcases kindOf_cases P.L j with h | h | h | h | h <;> rw [h] at hk <;> simp only [hk] <;>
-    simp only [W_setWaiting_true P s j hf.inited, W_dev, key, reduceCtorEq, false_and, if_false, true_and]
+  have hslot : (dv s j).kind ≠ .buffer →
+      (if (dv s j).part.isNone && (dv s j).output.isNone then (W P s).setWaiting j true false
+        else W P s) = W P (waitS s j) := W_waitS_slot P s j hf.inited
+  have hbuf : (dv s j).kind = .buffer → (W P s).setWaiting j true false = W P (waitS s j) :=
+    W_waitS_buf P s j hf.inited
+  by_cases hb : (dv s j).kind = .buffer
+  case neg =>
+    have hs := hslot hb
+    by_cases hfree : ((dv s j).part.isNone && (dv s j).output.isNone) = true
+    · rw [if_pos hfree] at hs
+      rcases kindOf_cases P.L j with h | h | h | h | h <;> rw [h] at hk <;>
+        first
+        | exact absurd hk hb
+        | (simp only [hk, hfree, if_true]
+           simp only [hs, W_dev, key, reduceCtorEq, false_and, if_false, true_and])
+    · rw [if_neg hfree] at hs
+      rcases kindOf_cases P.L j with h | h | h | h | h <;> rw [h] at hk <;>
+        first
+        | exact absurd hk hb
+        | (simp only [hk, hfree, if_false]
+           simp only [hs, W_dev, key, reduceCtorEq, false_and, if_false, true_and])
   -- buffer
+  simp only [hb]
+  simp only [hbuf hb, W_dev, key, reduceCtorEq, false_and, if_false, true_and]
   unfold bufRoom
   cases hc : (dv s j).cap with
   | none => simp
@@ -870,9 +918,11 @@ theorem Good.wakeS {P : Par} {s : S} (h : Good P s) (u : Nat) : Good P (wakeS P 
   · exact h
 
 theorem Good.waitS {P : Par} {s : S} (h : Good P s) (j : Nat) : Good P (waitS s j) := by
-  unfold C04W.waitS; split
+  unfold C04W.waitS C04W.waitS0; split
+  · split
+    · exact h
+    · exact h.setD (by rfl)
   · exact h
-  · exact h.setD (by rfl)
 
 theorem Good.notifyS {P : Par} {s : S} (h : Good P s) (j : Nat) : Good P (notifyS P s j) := by
   unfold C04W.notifyS
